@@ -7,12 +7,12 @@ RULE = 'Same program space as C09 with relationship changes weighted up; after e
 ASSUMPTIONS = ['live SQLite (in-memory) with foreign keys enforced immediately',
                'reference store vlib/refstore.py written from the documented relationship/cascade/key semantics (DESIGN.md section 7a)',
                'table and column names are taken from the mapping metadata (names only)']
-SHARDS = {'quick': 4, 'thorough': 16}
-MIN_EVALS = {'quick': 400, 'thorough': 5000}
+SHARDS = {'quick': 8, 'thorough': 16}
+MIN_EVALS = {'quick': 2000, 'thorough': 5000}
 PROPS = {'C12'}
 WEIGHTS = {'cadd': 5, 'crem': 4, 'set': 6, 'setm': 3}
 
-run = sesscheck.make_run(ID, PROPS, 400, 5000, weights=WEIGHTS,
+run = sesscheck.make_run(ID, PROPS, 700, 6000, weights=WEIGHTS,
                          nontrivial=lambda program, stats: bool(program['spec']['rels']) and (stats.get('op:cadd', 0) + stats.get('op:crem', 0) + stats.get('op:set', 0) + stats.get('op:setm', 0)) > 0)
 replay = sesscheck.make_replay(ID, PROPS)
 
